@@ -787,4 +787,434 @@ theorem peak_span (P : FPParams) (toPe : List Rat) (nCh nS : Nat) (c : Cand) (p 
     omega
 
 
+
+/-! ## sum_waveform / store_downsampled_waveform -/
+
+theorem addIdx_sum (l : List Rat) (k : Nat) (v : Rat) (hk : k < l.length) : (addIdx l k v).sum = l.sum + v := by
+  induction l generalizing k with
+  | nil => simp at hk
+  | cons b bs ih =>
+    cases k with
+    | zero => simp [addIdx]; grind
+    | succ k => simp [addIdx, ih k (by simpa using hk)]; grind
+
+theorem addAt_length (buf : List Rat) (k : Nat) (xs : List Rat) : (addAt buf k xs).length = buf.length := by
+  induction buf generalizing k xs with
+  | nil => simp [addAt]
+  | cons b bs ih =>
+    cases k with
+    | zero => cases xs <;> simp [addAt, ih]
+    | succ k => simp [addAt, ih]
+
+/-- `buf[k : k+len(xs)] += xs` adds the sum of `xs` when the slice fits -/
+theorem addAt_sum (buf : List Rat) (k : Nat) (xs : List Rat) (h : k + xs.length ≤ buf.length) :
+    (addAt buf k xs).sum = buf.sum + xs.sum := by
+  induction buf generalizing k xs with
+  | nil =>
+    have : xs = [] := by cases xs <;> simp_all
+    subst this; simp [addAt, Rat.add_zero]
+  | cons b bs ih =>
+    cases k with
+    | zero =>
+      cases xs with
+      | nil => simp [addAt, Rat.add_zero]
+      | cons x xs =>
+        simp only [addAt, List.sum_cons]
+        rw [ih 0 xs (by simp at h ⊢; omega)]
+        grind
+    | succ k =>
+      simp only [addAt, List.sum_cons]
+      rw [ih k xs (by simp at h ⊢; omega)]
+      grind
+
+/-- `overlap_indices` returns index ranges that lie inside both intervals and have equal length -/
+theorem overlapIndices_fits (a1 nA b1 nB hs he ps pe : Int)
+    (h : overlapIndices a1 nA b1 nB = .ok ((hs, he), (ps, pe))) :
+    0 ≤ hs ∧ hs ≤ he ∧ he ≤ nA ∧ 0 ≤ ps ∧ ps ≤ pe ∧ pe ≤ nB ∧ he - hs = pe - ps := by
+  unfold overlapIndices at h
+  split at h
+  · simp at h
+  · rename_i h1
+    split at h
+    · simp at h; obtain ⟨⟨rfl, rfl⟩, rfl, rfl⟩ := h; simp at h1; omega
+    · simp only [] at h
+      split at h
+      · simp at h; obtain ⟨⟨rfl, rfl⟩, rfl, rfl⟩ := h; simp at h1; omega
+      · split at h
+        · simp at h; obtain ⟨⟨rfl, rfl⟩, rfl, rfl⟩ := h; simp at h1; omega
+        · simp at h; obtain ⟨⟨rfl, rfl⟩, rfl, rfl⟩ := h; simp at h1; omega
+
+
+theorem slice_length_le {α} (a : List α) (lo hi : Nat) : (slice a lo hi).length ≤ hi - lo := by
+  unfold slice; simp; omega
+
+/-- the hit scan keeps `Σ buf = area = Σ area_per_channel` (as increments) -/
+theorem scanPeakHits_conserves (p : Peak) (dt : Int) (toPe : List Rat) :
+    ∀ (hits : List Hit) (acc acc' : SumAcc), scanPeakHits p dt toPe hits acc = .ok acc' →
+      acc.buf.length = p.length.toNat →
+      acc'.buf.length = acc.buf.length ∧ acc'.buf.sum - acc.buf.sum = acc'.area - acc.area ∧
+      ((∀ h ∈ hits, h.channel < acc.apc.length) →
+        acc'.apc.length = acc.apc.length ∧ acc'.apc.sum - acc.apc.sum = acc'.area - acc.area) := by
+  intro hits
+  induction hits with
+  | nil => intro acc acc' h _; simp [scanPeakHits] at h; subst h; simp; grind
+  | cons x rest ih =>
+    intro acc acc' h hlen
+    unfold scanPeakHits at h
+    split at h
+    · simp at h
+    · simp only [] at h
+      split at h
+      · simp at h; subst h; simp; grind
+      · split at h
+        · obtain ⟨h1, h2, h3⟩ := ih acc acc' h hlen
+          exact ⟨h1, h2, fun hc => h3 (fun y hy => hc y (by simp [hy]))⟩
+        · split at h
+          · simp at h
+          · rename_i hs he ps pe hov
+            obtain ⟨o1, o2, o3, o4, o5, o6, o7⟩ := overlapIndices_fits _ _ _ _ _ _ _ _ hov
+            have hfit : ps.toNat + ((slice x.wave hs.toNat he.toNat).map (· * toPe.getD x.channel 0)).length ≤ acc.buf.length := by
+              have := slice_length_le x.wave hs.toNat he.toNat
+              simp only [List.length_map]
+              omega
+            obtain ⟨h1, h2, h3⟩ := ih _ acc' h (by simp only [addAt_length]; exact hlen)
+            simp only [addAt_length] at h1
+            rw [addAt_sum _ _ _ hfit] at h2
+            refine ⟨h1, by grind, ?_⟩
+            intro hc
+            have hx : x.channel < acc.apc.length := hc x (by simp)
+            obtain ⟨h4, h5⟩ := h3 (by intro y hy; simp only [addIdx_length]; exact hc y (by simp [hy]))
+            simp only [addIdx_length] at h4
+            rw [addIdx_sum _ _ _ hx] at h5
+            exact ⟨h4, by grind⟩
+
+
+theorem groupSums_length (f k : Nat) (buf : List Rat) : (groupSums f k buf).length = k := by
+  induction k generalizing buf with
+  | zero => simp [groupSums]
+  | succ k ih => simp [groupSums, ih]
+
+theorem groupSums_sum (f k : Nat) (buf : List Rat) : (groupSums f k buf).sum = (buf.take (k * f)).sum := by
+  induction k generalizing buf with
+  | zero => simp [groupSums]
+  | succ k ih =>
+    simp only [groupSums, List.sum_cons, ih]
+    have : (k + 1) * f = f + k * f := by grind
+    rw [this, List.take_add, List.sum_append]
+
+theorem setAt_zero_take (data xs : List Rat) (h : xs.length ≤ data.length) : (setAt data 0 xs).take xs.length = xs := by
+  induction data generalizing xs with
+  | nil => cases xs <;> simp_all [setAt]
+  | cons b bs ih =>
+    cases xs with
+    | nil => simp
+    | cons x xs => simp [setAt, ih xs (by simpa using h)]
+
+theorem ceil_div_spec (L n : Nat) (hn : 0 < n) : L ≤ downsampleFactor L n * n ∧ (downsampleFactor L n ≤ 1 → L ≤ n) := by
+  unfold downsampleFactor
+  constructor
+  · have := Nat.lt_div_mul_add (a := L + n - 1) hn
+    omega
+  · intro h
+    false_or_by_contra
+    have : 2 ≤ (L + n - 1) / n := (Nat.le_div_iff_mul_le hn).mpr (by omega)
+    omega
+
+/-- what `store_downsampled_waveform` stores plus what it drops is the whole full-resolution waveform -/
+theorem storeDownsampled_sum (p : Peak) (buf : List Rat) (hn : 0 < p.data.length)
+    (hb : buf.length = p.length.toNat) :
+    (storeDownsampled p buf).wave.sum + (droppedTail p buf).sum = buf.sum := by
+  obtain ⟨c1, c2⟩ := ceil_div_spec p.length.toNat p.data.length hn
+  unfold storeDownsampled droppedTail Peak.wave
+  simp only []
+  by_cases hf : downsampleFactor p.length.toNat p.data.length > 1
+  · simp only [hf, if_true, writePrefix]
+    have hle : p.length.toNat / downsampleFactor p.length.toNat p.data.length ≤ p.data.length :=
+      Nat.div_le_of_le_mul c1
+    have e1 : (Int.toNat ((p.length.toNat / downsampleFactor p.length.toNat p.data.length : Nat) : Int))
+        = (groupSums (downsampleFactor p.length.toNat p.data.length) (p.length.toNat / downsampleFactor p.length.toNat p.data.length) buf).length := by
+      rw [groupSums_length]; exact Int.toNat_natCast _
+    rw [e1, setAt_zero_take _ _ (by rw [groupSums_length]; exact hle), groupSums_sum]
+    have e2 : List.take p.length.toNat buf = buf := List.take_of_length_le (by omega)
+    rw [e2, ← List.sum_append, List.take_append_drop]
+  · simp only [hf, if_false, writePrefix, List.sum_nil, Rat.add_zero]
+    have e2 : List.take p.length.toNat buf = buf := List.take_of_length_le (by omega)
+    rw [e2]
+    have := setAt_zero_take p.data buf (by have := c2 (by omega); omega)
+    rw [hb] at this
+    rw [this]
+
+
+theorem zeros_sum (n : Nat) : (zeros n).sum = 0 := by
+  induction n with
+  | zero => rfl
+  | succ n ih => simp [zeros, List.replicate_succ] at ih ⊢; rw [ih]; exact Rat.add_zero 0
+
+theorem zeros_length (n : Nat) : (zeros n).length = n := by simp [zeros]
+
+/-- one peak of `sum_waveform`: the full-resolution buffer integrates to the area, which is also the sum of
+the per-channel areas; the stored waveform plus the samples dropped by down-sampling integrate to it -/
+theorem sumOnePeak_conserves (dt : Int) (toPe : List Rat) (nCh : Nat) (p q : Peak) (hits' : List Hit) (buf : List Rat)
+    (hn : 0 < p.data.length) (h : sumOnePeak dt toPe nCh p hits' = .ok (q, buf)) :
+    buf.sum = q.area ∧ q.wave.sum + (droppedTail p buf).sum = q.area ∧
+    ((∀ x ∈ hits', x.channel < nCh) → q.apc.sum = q.area) := by
+  unfold sumOnePeak at h
+  split at h
+  · simp at h
+  · rename_i acc hacc
+    simp only [Except.ok.injEq, Prod.mk.injEq] at h
+    obtain ⟨hq, hbuf⟩ := h
+    subst hbuf
+    obtain ⟨h1, h2, h3⟩ := scanPeakHits_conserves p dt toPe hits' _ acc hacc (by simp [zeros_length])
+    simp only [zeros_sum, zeros_length] at h1 h2 h3
+    have hA : acc.buf.sum = acc.area := by grind
+    have hs := storeDownsampled_sum { p with area := acc.area } acc.buf hn (by simpa using h1)
+    have hq2 : q.wave = (storeDownsampled { p with area := acc.area } acc.buf).wave := by
+      rw [← hq]; rfl
+    have hq3 : q.area = acc.area := by
+      rw [← hq]; unfold storeDownsampled; simp only []; split <;> rfl
+    have hd : droppedTail { p with area := acc.area } acc.buf = droppedTail p acc.buf := rfl
+    refine ⟨by rw [hq3]; exact hA, by rw [hq2, hq3, ← hd, hs]; exact hA, ?_⟩
+    intro hc
+    have := (h3 hc).2
+    have hq4 : q.apc = acc.apc := by rw [← hq]
+    rw [hq4, hq3]; grind
+
+
+theorem firstContributing_sub (p : Peak) (dt : Int) : ∀ (hits hits' : List Hit),
+    firstContributing p dt hits = some hits' → ∀ x ∈ hits', x ∈ hits := by
+  intro hits
+  induction hits with
+  | nil => intro hits' h; simp [firstContributing] at h
+  | cons y rest ih =>
+    intro hits' h x hx
+    unfold firstContributing at h
+    split at h
+    · simp at h; subst h; exact hx
+    · exact List.mem_cons_of_mem _ (ih hits' h x hx)
+
+/-- the two lists have the same length and corresponding entries are related -/
+def AllPairs {α β} (R : α → β → Prop) : List α → List β → Prop
+  | [], [] => True
+  | a :: as, b :: bs => R a b ∧ AllPairs R as bs
+  | _, _ => False
+
+theorem AllPairs_same {α} {R : α → α → Prop} (h : ∀ x, R x x) : ∀ l : List α, AllPairs R l l
+  | [] => trivial
+  | x :: xs => ⟨h x, AllPairs_same h xs⟩
+
+theorem AllPairs.imp {α β} {R S : α → β → Prop} (h : ∀ a b, R a b → S a b) :
+    ∀ {l : List α} {m : List β}, AllPairs R l m → AllPairs S l m
+  | [], [], _ => trivial
+  | _ :: _, _ :: _, ⟨h1, h2⟩ => ⟨h _ _ h1, AllPairs.imp h h2⟩
+  | [], _ :: _, hf => hf.elim
+  | _ :: _, [], hf => hf.elim
+
+/-- every peak returned by `sum_waveform` was either summed by `sumOnePeak` over a suffix of the hits, or
+(hits exhausted) is left as it was / with its area reset -/
+theorem sumLoop_forall (dt : Int) (toPe : List Rat) (nCh : Nat) :
+    ∀ (peaks : List Peak) (hits : List Hit) (out : List Peak), sumLoop dt toPe nCh peaks hits = .ok out →
+      AllPairs (fun p q =>
+        (∃ hits' buf, sumOnePeak dt toPe nCh p hits' = .ok (q, buf) ∧ ∀ x ∈ hits', x ∈ hits) ∨ q = p ∨ q = { p with area := 0 })
+        peaks out := by
+  intro peaks
+  induction peaks with
+  | nil => intro hits out h; simp [sumLoop] at h; subst h; trivial
+  | cons p ps ih =>
+    intro hits out h
+    unfold sumLoop at h
+    split at h
+    · simp only [Except.ok.injEq] at h
+      subst h
+      refine ⟨Or.inr (Or.inr rfl), ?_⟩
+      apply AllPairs_same
+      intro x; exact Or.inr (Or.inl rfl)
+    · rename_i hits' hfc
+      split at h
+      · simp at h
+      · rename_i p' buf hone
+        split at h
+        · simp at h
+        · rename_i r hr
+          simp only [Except.ok.injEq] at h
+          subst h
+          have hsub := firstContributing_sub p dt hits hits' hfc
+          refine ⟨Or.inl ⟨hits', buf, hone, hsub⟩, ?_⟩
+          refine AllPairs.imp ?_ (ih hits' r hr)
+          intro a b hab
+          rcases hab with ⟨h2, b2, e, hs⟩ | hab
+          · exact Or.inl ⟨h2, b2, e, fun x hx => hsub x (hs x hx)⟩
+          · exact Or.inr hab
+
+theorem droppedTail_nil_of_dvd (p : Peak) (buf : List Rat)
+    (h : downsampleFactor p.length.toNat p.data.length ∣ p.length.toNat) : droppedTail p buf = [] := by
+  unfold droppedTail
+  simp only []
+  split
+  · rw [Nat.div_mul_cancel h]
+    simp
+  · rfl
+
+theorem sum_zero_of_all_zero (l : List Rat) (h : l.all (· = 0) = true) : l.sum = 0 := by
+  induction l with
+  | nil => rfl
+  | cons x xs ih =>
+    simp only [List.all_cons, Bool.and_eq_true, decide_eq_true_eq] at h
+    rw [List.sum_cons, h.1, ih h.2]; exact Rat.add_zero 0
+
+
+
+/-! ## merge_peaks -/
+
+theorem zipAdd_length (a b : List Rat) : (zipAdd a b).length = a.length := by
+  induction a generalizing b with
+  | nil => cases b <;> simp [zipAdd]
+  | cons x xs ih => cases b <;> simp [zipAdd, ih]
+
+theorem zipAdd_getD (a b : List Rat) (k : Nat) (h : b.length ≤ a.length) :
+    (zipAdd a b).getD k 0 = a.getD k 0 + b.getD k 0 := by
+  induction a generalizing b k with
+  | nil =>
+    have : b = [] := by cases b <;> simp_all
+    subst this; simp [zipAdd]; exact (Rat.add_zero 0).symm
+  | cons x xs ih =>
+    cases b with
+    | nil => simp [zipAdd, Rat.add_zero]
+    | cons y ys =>
+      cases k with
+      | zero => simp [zipAdd]
+      | succ k => simp only [zipAdd, List.getD_cons_succ]; exact ih ys k (by simpa using h)
+
+theorem setAt_length (buf : List Rat) (k : Nat) (xs : List Rat) : (setAt buf k xs).length = buf.length := by
+  induction buf generalizing k xs with
+  | nil => simp [setAt]
+  | cons b bs ih =>
+    cases k with
+    | zero => cases xs <;> simp [setAt, ih]
+    | succ k => simp [setAt, ih]
+
+/-- the loop over the constituents adds areas, hit counts and per-channel areas -/
+theorem mergeLoop_acc (t0 common : Int) :
+    ∀ (old : List Peak) (acc acc' : MergeAcc), mergeLoop t0 common old acc = .ok acc' →
+      acc'.area = acc.area + (old.map (·.area)).sum ∧ acc'.nHits = acc.nHits + (old.map (·.nHits)).sum ∧
+      acc'.buf.length = acc.buf.length ∧ acc'.apc.length = acc.apc.length ∧
+      ((∀ p ∈ old, p.apc.length = acc.apc.length) →
+        ∀ k, acc'.apc.getD k 0 = acc.apc.getD k 0 + (old.map (·.apc.getD k 0)).sum) := by
+  intro old
+  induction old with
+  | nil => intro acc acc' h; simp [mergeLoop] at h; subst h; simp [Rat.add_zero]
+  | cons p ps ih =>
+    intro acc acc' h
+    unfold mergeLoop at h
+    simp only [] at h
+    split at h
+    · simp at h
+    · split at h
+      · simp at h
+      · obtain ⟨h1, h2, h3, h4, h5⟩ := ih _ acc' h
+        simp only [setAt_length, zipAdd_length] at h3 h4 h5
+        refine ⟨by rw [h1]; simp only [List.map_cons, List.sum_cons]; grind,
+                by rw [h2]; simp only [List.map_cons, List.sum_cons]; omega, h3, h4, ?_⟩
+        intro hl k
+        rw [h5 (fun q hq => hl q (by simp [hq])) k, zipAdd_getD _ _ _ (by rw [hl p (by simp)]; exact Nat.le_refl _)]
+        simp only [List.map_cons, List.sum_cons]; grind
+
+
+/-- `store_downsampled_waveform` keeps start, area, per-channel area and hit count, and never lets the peak
+grow: `dt * length` can only shrink (it shrinks exactly when the factor does not divide the length) -/
+theorem storeDownsampled_fields (p : Peak) (buf : List Rat) (hdt : 0 < p.dt) :
+    (storeDownsampled p buf).time = p.time ∧ (storeDownsampled p buf).area = p.area ∧
+    (storeDownsampled p buf).apc = p.apc ∧ (storeDownsampled p buf).nHits = p.nHits ∧
+    (storeDownsampled p buf).dt * (storeDownsampled p buf).length ≤ p.dt * p.length ∧
+    0 < (storeDownsampled p buf).dt := by
+  unfold storeDownsampled
+  simp only []
+  split
+  · rename_i hf
+    refine ⟨rfl, rfl, rfl, rfl, ?_, ?_⟩
+    · simp only []
+      have hL : 0 < p.length.toNat := by
+        false_or_by_contra
+        have : p.length.toNat = 0 := by omega
+        rw [this] at hf
+        unfold downsampleFactor at hf
+        have := Nat.div_le_self (0 + p.data.length - 1) p.data.length
+        have h0 : (0 + p.data.length - 1) / p.data.length = 0 := by
+          by_cases hz : p.data.length = 0
+          · simp [hz]
+          · exact Nat.div_eq_of_lt (by omega)
+        omega
+      have h1 := Nat.div_mul_le_self p.length.toNat (downsampleFactor p.length.toNat p.data.length)
+      have h2 : ((p.length.toNat / downsampleFactor p.length.toNat p.data.length : Nat) : Int) *
+          ((downsampleFactor p.length.toNat p.data.length : Nat) : Int) ≤ p.length := by
+        have : ((p.length.toNat : Nat) : Int) = p.length := Int.toNat_of_nonneg (by omega)
+        rw [← this]; exact_mod_cast h1
+      calc p.dt * ↑(downsampleFactor p.length.toNat p.data.length) * ↑(p.length.toNat / downsampleFactor p.length.toNat p.data.length)
+          = p.dt * (↑(p.length.toNat / downsampleFactor p.length.toNat p.data.length) * ↑(downsampleFactor p.length.toNat p.data.length)) := by grind
+        _ ≤ p.dt * p.length := Int.mul_le_mul_of_nonneg_left h2 (by omega)
+    · simp only []
+      exact Int.mul_pos hdt (by omega)
+  · exact ⟨rfl, rfl, rfl, rfl, Int.le_refl _, hdt⟩
+
+theorem gcdOfDts_nonneg (old : List Peak) (h : ∀ p ∈ old, 0 ≤ p.dt) : 0 ≤ gcdOfDts old := by
+  cases old with
+  | nil => simp [gcdOfDts]
+  | cons p ps =>
+    simp only [gcdOfDts]
+    have : ∀ (l : List Peak) (g : Int), 0 ≤ g → 0 ≤ l.foldl (fun g q => (Int.gcd g q.dt : Int)) g := by
+      intro l
+      induction l with
+      | nil => intro g hg; simpa
+      | cons q qs ih => intro g _; simp only [List.foldl_cons]; exact ih _ (by omega)
+    exact this ps p.dt (h p (by simp))
+
+/-- **merge: adds and spans.** -/
+theorem mergeOne_spec (nCh nS : Nat) (old : List Peak) (q : Peak) (e : Int)
+    (h : mergeOne nCh nS old = .ok (q, e)) :
+    ∃ first last, old.head? = some first ∧ old.getLast? = some last ∧
+      q.time = first.time ∧ e = last.endt ∧
+      q.area = (old.map (·.area)).sum ∧ q.nHits = (old.map (·.nHits)).sum ∧
+      ((∀ p ∈ old, p.apc.length = nCh) → ∀ k, q.apc.getD k 0 = (old.map (·.apc.getD k 0)).sum) ∧
+      ((∀ p ∈ old, 0 ≤ p.dt) → 0 < q.dt ∧ q.time + q.dt * q.length ≤ e) := by
+  unfold mergeOne at h
+  split at h
+  · rename_i first rest last hl
+    simp only [] at h
+    split at h
+    · simp at h
+    · rename_i hc
+      split at h
+      · simp at h
+      · rename_i acc hacc
+        simp only [Except.ok.injEq, Prod.mk.injEq] at h
+        obtain ⟨hq, he⟩ := h
+        obtain ⟨a1, a2, a3, a4, a5⟩ := mergeLoop_acc _ _ _ _ _ hacc
+        refine ⟨first, last, rfl, hl, ?_, he.symm, ?_, ?_, ?_, ?_⟩
+        · rw [← hq]; unfold storeDownsampled; simp only []; split <;> rfl
+        · rw [← hq]; unfold storeDownsampled; simp only []; split <;> (simp only [a1]; grind)
+        · rw [← hq]; unfold storeDownsampled; simp only []; split <;> (simp only [a2]; omega)
+        · intro hl' k
+          have hz : (zeros nCh).getD k 0 = 0 := by
+            simp [zeros, List.getD_eq_getElem?_getD, List.getElem?_replicate]; split <;> rfl
+          have := a5 (by intro p hp; simp only [zeros_length]; exact hl' p hp) k
+          rw [hz] at this
+          rw [← hq]; unfold storeDownsampled; simp only []; split <;> (simp only [this]; grind)
+        · intro hdt
+          have hg := gcdOfDts_nonneg (first :: rest) hdt
+          have hpos : 0 < gcdOfDts (first :: rest) := by omega
+          obtain ⟨f1, _, _, _, f5, f6⟩ := storeDownsampled_fields
+            { time := first.time, length := Int.fdiv (last.endt - first.time) (gcdOfDts (first :: rest)),
+              dt := gcdOfDts (first :: rest), area := acc.area, apc := acc.apc, nHits := acc.nHits, maxGap := -1,
+              data := zeros nS } acc.buf hpos
+          rw [hq] at f1 f5 f6
+          refine ⟨f6, ?_⟩
+          simp only [] at f1 f5
+          rw [f1, ← he]
+          have hfl : gcdOfDts (first :: rest) * Int.fdiv (last.endt - first.time) (gcdOfDts (first :: rest)) ≤ last.endt - first.time := by
+            rw [Int.fdiv_eq_ediv_of_nonneg _ hg, Int.mul_comm]
+            exact Int.ediv_mul_le _ (by omega)
+          omega
+  · simp at h
+
+
 end Strax.Peaks
